@@ -363,8 +363,8 @@ def run(tier):
                         v.violation("C09/upload/content", f"{cfg}: uploaded file differs", replay)
                     distinct.add((cfg, "upload", b, w, fl))
             # ---- C. retransmission interval (lower bound is the verdict; upper bound is a watchdog)
-            Ts = [1, 2, 3, 0] if thorough else [1, 2]
-            with concurrent.futures.ThreadPoolExecutor(max_workers=4) as ex:
+            Ts = [1, 2, 3, 0, 7, 30] if thorough else [1, 2, 7]
+            with concurrent.futures.ThreadPoolExecutor(max_workers=6) as ex:
                 for T, (dt, why) in zip(Ts, ex.map(lambda T: retransmit_interval(srv.addr, "f700.bin", T), Ts)):
                     evaluations += 1
                     eff = T or 5
